@@ -5,6 +5,7 @@ import ast
 
 from ..astutil import dotted, is_const, is_none, kw, norm, strip_docstring, walk_body
 from ..dtree import decision_tree
+from ..finite import k_eq, k_is, k_none
 from ..report import Checker
 from ..srcmodel import Func, Unsupported
 from .c03 import reg_mutations
@@ -22,19 +23,32 @@ def r_deser_id(ck: Checker) -> None:
     body = strip_docstring(f.node.body)
     vp = f.node.args.args[1].arg
     key = f"{vp}['id']"
+    hit = f"{REG}.get({key})"
     leaves = decision_tree(body)
-    first = [st for st in body if isinstance(st, ast.Assign)]
     what0 = "deserialization consults the registry under the serialized id first and returns a hit as is"
-    ex = None
-    if first and norm(first[0].value) in (f"{REG}.get({key})", f"{REG}.get({key}, None)"):
-        ex = norm(first[0].targets[0])
-    if ex is None:
-        ck.violation("R-DESER-ID", f, f.node, what0, construct="_deserialize does not start with a registry lookup under value['id']")
+    k_hit = k_none(hit)
+    k_hit_in = f"in({key},{REG})"
+    first_keys = {list(lf.assign)[0] for lf in leaves if lf.assign}
+    if not first_keys or not first_keys <= {k_hit, k_hit_in}:
+        looks = [k for k in first_keys if REG in k]
+        if looks and any(key in k for k in looks) or not any(REG in norm(st) for st in body[:2]):
+            ck.violation("R-DESER-ID", f, f.node, what0, construct="_deserialize does not start with a registry lookup under value['id']",
+                         first_test=sorted(first_keys))
+            return
+        ck.violation("R-DESER-ID", f, f.node, what0, construct="_deserialize does not start with a registry lookup under value['id']",
+                     first_test=sorted(first_keys))
         return
-    k_hit = f"is(None,{ex})"
-    bad0 = [lf for lf in leaves if lf.assign.get(k_hit) is False and not (lf.outcome == "return" and lf.val() == ex)]
+
+    def is_hit(lf) -> bool | None:
+        if k_hit in lf.assign:
+            return not lf.assign[k_hit]
+        if k_hit_in in lf.assign:
+            return lf.assign[k_hit_in]
+        return None
+
+    bad0 = [lf for lf in leaves if is_hit(lf) is True and not (lf.outcome == "return" and lf.val() in (hit, f"{REG}[{key}]"))]
     (ck.violation if bad0 else ck.holds)("R-DESER-ID", f, f.node, what0, **({"construct": "_deserialize: a registry hit is not returned as is"} if bad0 else {}))
-    miss = [lf for lf in leaves if lf.assign.get(k_hit) is True]
+    miss = [lf for lf in leaves if is_hit(lf) is False]
     what = ("on every path that returns the re-created object its id equals the serialized id (by the branch condition or by a forced "
             "store), the registry maps the serialized id to it, and the provisional key was removed first")
     bad = []
@@ -46,14 +60,14 @@ def r_deser_id(ck: Checker) -> None:
             bad.append("the node is not re-created through the base class _deserialize")
             continue
         obj = norm(creates[0].targets[0])
-        k_eq = "eq(" + ",".join(sorted((f"{obj}.id", key))) + ")"
+        k_eq_ = k_eq(f"{obj}.id", key)
         if lf.outcome != "return" or lf.val() != obj:
             bad.append(f"returns {lf.val()}")
             continue
-        if k_eq not in lf.assign:
+        if k_eq_ not in lf.assign:
             bad.append("the id of the re-created node is never compared with the serialized id (it may carry a different collision suffix)")
             continue
-        if lf.assign[k_eq]:
+        if lf.assign[k_eq_]:
             continue  # ids agree already
         seq = []
         for st in lf.stmts:
@@ -86,27 +100,32 @@ def r_tag_table(ck: Checker) -> None:
     ok = len(regs) == 1 and norm(regs[0].targets[0].slice) == "cls.__name__" and norm(regs[0].value) == "cls" and regs[0] in isc.node.body
     (ck.holds if ok else ck.violation)("R-TAG-TABLE", isc, isc.node, what, **({} if ok else {"construct": f"__init_subclass__: {[norm(r) for r in regs]}"}))
     leaves = decision_tree(strip_docstring(ds.node.body))
-    cn = None
-    for st in ds.node.body:
-        if isinstance(st, ast.Assign) and isinstance(st.value, ast.Call) and norm(st.value).startswith(f"{ds.node.args.args[1].arg}.get("):
-            cn = norm(st.targets[0])
+    vp = ds.node.args.args[1].arg
+    tag = f"{vp}.get({wkeys[0] if wkeys else 'TYPE_KEY'})"
     bad = []
-    k_str = f"isinstance({cn}, str)"
+    k_str = f"isinstance({tag}, str)"
     for lf in leaves:
         a = lf.assign
         assigns = {norm(st.targets[0]): norm(st.value) for st in lf.stmts if isinstance(st, ast.Assign)}
         if k_str not in a:
             bad.append("does not test whether a tag is present")
             continue
-        cz = assigns.get("clazz")
-        if a[k_str] and cz not in (f"TYPES.get({cn}, None)", f"TYPES.get({cn})"):
+        czs = [v for k, v in assigns.items()]
+        cz = czs[-1] if czs else None
+        czname = [k for k in assigns][-1] if assigns else None
+        if a[k_str] and cz not in (f"TYPES.get({tag}, None)", f"TYPES.get({tag})"):
             bad.append(f"tag present: class looked up as {cz}")
         if not a[k_str] and cz != "cls":
-            bad.append(f"no tag: class is {cz} instead of the receiving class")
-        if a.get("is(None,clazz)") is True and not (lf.outcome == "raise" and "ValueError" in (lf.val() or "")):
+            # default-then-overwrite form: clazz = cls ... if tag: clazz = TYPES.get(tag)
+            if "cls" not in czs:
+                bad.append(f"no tag: class is {cz} instead of the receiving class")
+        kn = k_none(czname) if czname else None
+        if kn and a.get(kn) is True and not (lf.outcome == "raise" and "ValueError" in (lf.val() or "")):
             bad.append("unknown class name does not raise ValueError")
-        if a.get("is(None,clazz)") is False and not (lf.outcome == "return" and "clazz.from_dict(value" in (lf.val() or "")):
+        if kn and a.get(kn) is False and not (lf.outcome == "return" and f"{czname}.from_dict({vp}" in (lf.val() or "")):
             bad.append(f"known class: returns {lf.val()}")
+        if kn and kn not in a and a[k_str]:
+            bad.append("a tagged class name is used without checking that it is registered")
     what = "mixin _deserialize: the tagged class is looked up in TYPES (untagged: the receiving class), an unknown name raises, the instance is built by that class's from_dict"
     (ck.violation if bad else ck.holds)("R-TAG-TABLE", ds, ds.node, what, evaluations=len(leaves), **({"construct": f"{MIXIN}._deserialize: {bad[0]}"} if bad else {}))
 
@@ -208,14 +227,16 @@ def r_idx_pair(ck: Checker) -> None:
     reads = [c for c in walk_body(d.node.body) if isinstance(c, ast.Call) and isinstance(c.func, ast.Attribute) and c.func.attr == "get"
              and norm(c.func.value) == d.node.args.args[1].arg]
     look = [c for c in walk_body(d.node.body) if isinstance(c, ast.Call) and norm(c.func) == "Source._source_idx_to_source.get"]
+    look += [c for c in walk_body(d.node.body) if isinstance(c, ast.Subscript) and norm(c.value) == "Source._source_idx_to_source"]
     rk = norm(reads[0].args[0]) if reads else None
-    ok = len(w) == 1 and wk == "'idx'" and wv == "Source._sources[self]" and rk == "'idx'" and len(look) == 1
+    ok = len(w) == 1 and wk == "'idx'" and wv == "Source._sources[self]" and rk == "'idx'" and len(look) >= 1
     if ok:
         var = None
         for st in walk_body(d.node.body):
             if isinstance(st, ast.Assign) and st.value is reads[0]:
                 var = norm(st.targets[0])
-        ok = var is not None and norm(look[0].args[0]) == var
+        keys = {norm(c.args[0]) if isinstance(c, ast.Call) else norm(c.slice) for c in look}
+        ok = keys == {var} if var is not None else keys == {norm(reads[0])}
     (ck.holds if ok else ck.violation)("R-IDX-PAIR", s, s.node, what, **({} if ok else {"construct": f"writer key {wk} value {wv}; reader key {rk}; lookups {[norm(l)[:50] for l in look]}"}))
     stores = sorted([st for st in walk_body(p.node.body) if isinstance(st, ast.Assign) and isinstance(st.targets[0], ast.Subscript)], key=lambda x: x.lineno)
     what = "both source tables are filled together in Source.__post_init__ with the same index"
@@ -228,7 +249,8 @@ def r_idx_pair(ck: Checker) -> None:
         ok = a is not None and b is not None and a[0] == "self" and b[1] == "self" and a[1] == b[0] and not a[1].startswith("len(")
     (ck.holds if ok else ck.violation)("R-IDX-PAIR", p, p.node, what, **({} if ok else {"construct": f"Source.__post_init__ stores {[norm(s_) for s_ in stores]}"}))
     what = "an unknown index raises instead of fabricating a source"
-    ok = any(isinstance(st, ast.If) and norm(st.test) == "ret is None" and isinstance(st.body[0], ast.Raise) for st in d.node.body)
+    ok = any(isinstance(st, ast.If) and norm(st.test) in ("ret is None", "Source._source_idx_to_source.get(idx) is None")
+             and isinstance(st.body[0], ast.Raise) for st in walk_body(d.node.body))
     (ck.holds if ok else ck.violation)("R-IDX-PAIR", d, d.node, what, **({} if ok else {"construct": "Source._deserialize: unknown index is not rejected"}))
 
 
